@@ -792,11 +792,21 @@ class IrGenerator:
                     return len(map) == 1
 
                 def check_branches(map: IdMap):
+                    checked = []
+
                     for cond in map.values():
                         assert is_primitive(_type_qualifier.TypeQualifier.decay(cond))
 
                         if isinstance(cond, _type_qualifier.TypeQualifier):
                             return False
+
+                        # a case statement may not contain the same choice twice,
+                        # fall back to the if-else chain (the first match wins)
+                        for prev in checked:
+                            if type(prev) is type(cond) and bool(prev == cond):
+                                return False
+
+                        checked.append(cond)
                     return True
 
                 if check_value(lhs_map) and check_branches(rhs_map):
